@@ -87,6 +87,28 @@ func runC02(r *Report) {
 	}
 
 	// ---- R-C02-2 source forwarder access --------------------------------------
+	// the forwarders are taken away only by Close: a re-attach replaces the source forwarder in one
+	// step; a nil stored in between is visible to the target->source writer, which then fails with
+	// ErrClosedPipe, loses the chunk and tears the bridge down although neither end closed
+	for _, fld := range []string{"sourceForwarder", "targetForwarder"} {
+		for _, fa := range r.P.FieldAccesses("internal/protocol/session/tunnel", "Bridge", fld) {
+			if !fa.Write {
+				continue
+			}
+			fad, ok := fa.In.(*ssa.FieldAddr)
+			if !ok || fad.Referrers() == nil {
+				continue
+			}
+			for _, ref := range *fad.Referrers() {
+				st, ok := ref.(*ssa.Store)
+				if !ok || !isNil(st.Val) {
+					continue
+				}
+				top := Outermost(fa.Fn).Name()
+				r.Ob("R-C02-2", st.Pos(), top == "Close" || top == "cleanup", "Bridge."+fld+" is set to nil only by the bridge's teardown (Close), never as an intermediate state of a re-attach", r.P.FuncName(fa.Fn), "forwarder-nil-only-on-close:"+fld)
+			}
+		}
+	}
 	guardedBy(r, "R-C02-2", tunPkg, "Bridge", "sourceForwarder", "sourceConnMu", map[string]string{
 		"NewBridge": "constructor: the bridge is not shared yet",
 	})
